@@ -251,7 +251,14 @@ class Prop:
                     keep_sigs[u] = b.driver.shims[u].view_sig()
             for n_, s_ in (rel_sigs or {}).items():
                 keep_sigs['R_' + n_] = s_
-            text, lines = harness_text(c, sig, '@@GEN@@', ensures_override=ens, rel_sigs=rel_sigs, keep_sigs=keep_sigs)
+            callee_contracts = []
+            for callee in c.replace:
+                cand = [x for x in self.contracts if x.fn == callee and x.build == c.build]
+                if not cand:
+                    infra.append('%s: replaced callee %s has no contract in build %s' % (c.fn, callee, c.build))
+                    continue
+                callee_contracts.append((cand[0], self.signature(cand[0], b)[0]))
+            text, lines = harness_text(c, sig, '@@GEN@@', ensures_override=ens, rel_sigs=rel_sigs, keep_sigs=keep_sigs, callee_contracts=callee_contracts)
             jid = jid0
             uses_ir = []
             for u in c.uses:
@@ -266,7 +273,7 @@ class Prop:
             jobmeta[ckey] = (c, sig, ens, fnd)
             sfnd = {k: f for k, f in fnd.items() if k.startswith('safety:')}
             if sfnd:
-                text2, lines2 = harness_text(c, sig, '@@GEN@@', extra_requires=['!(%s)' % f.S for f in sfnd.values()], ensures_override=ens, rel_sigs=rel_sigs, keep_sigs=keep_sigs)
+                text2, lines2 = harness_text(c, sig, '@@GEN@@', extra_requires=['!(%s)' % f.S for f in sfnd.values()], ensures_override=ens, rel_sigs=rel_sigs, keep_sigs=keep_sigs, callee_contracts=callee_contracts)
                 job2 = dict(job)
                 job2.update({'id': jid + '_x', 'text': text2, 'lines': lines2, 'variant': 'outsideS'})
                 jobs.append(job2)
